@@ -146,13 +146,14 @@ const (
 	OpPairAC // Aborted() then Completed()
 	OpAvgAdjust
 	OpSpawn // main: start client N (clients not spawned explicitly start before main's ops)
+	OpJoinFirst // main: wait for clients 0..N-1
 	nOps
 )
 
 var OpNames = [...]string{"Add", "IncrInt64", "IncrBy", "Increment", "EwmaIncrInt64", "EwmaIncrBy", "EwmaIncrement", "SetCurrent",
 	"EwmaSetCurrent", "SetTotal", "EnableTriggerComplete", "SetRefill", "Abort", "SetPriority", "UpdateBarPriority", "Write",
 	"Current", "Completed", "Aborted", "Completed+Aborted", "IsRunning", "ID", "BarWait", "Refresh", "CloseDelay", "CancelCtx",
-	"Shutdown", "Sleep", "ReadNotifier", "Proxy", "Wait", "Join", "Fair", "TraverseDecorators", "Aborted+Completed", "DecoratorAverageAdjust", "Spawn"}
+	"Shutdown", "Sleep", "ReadNotifier", "Proxy", "Wait", "Join", "Fair", "TraverseDecorators", "Aborted+Completed", "DecoratorAverageAdjust", "Spawn", "JoinFirst"}
 
 // Op is one client operation.
 type Op struct {
